@@ -92,6 +92,20 @@ func (t *SourceTask) Do(ctx context.Context, b *Batch) error {
 
 	t.metrics.Observe(recs, start)
 
+	// Refuse a record without a position right here. Downstream code relies
+	// on every source record carrying one: Batch.SplitRecord uses a nil
+	// position to recognise the tail pieces of a split record and panics
+	// ("record has a nil position but no known split run") when a processor
+	// splits a record that never had a position, which would take the whole
+	// process down because of one misbehaving source connector.
+	positions := make([]opencdc.Position, len(recs))
+	for i, r := range recs {
+		positions[i] = r.Position
+	}
+	if err := validateAckPositions(positions); err != nil {
+		return cerrors.Errorf("source %s returned an invalid batch: %w", t.id, err)
+	}
+
 	// Overwrite the batch with the new records.
 	*b = *NewBatch(recs)
 	return nil
